@@ -1,5 +1,25 @@
+import json
+
 import envelope
 
 
 def run(ctx, replay=None):
+    rp = json.load(open(replay)) if replay else None
+    if rp and rp.get("family") == "storeemit":
+        import storeemit
+        storeemit.run_c01_part(ctx, rp)
+        return ctx.finish(level="model_checking", rule="replay: store layer (MessageStore emission / listing)", exhaustive=False,
+                          technique="replay of one recorded store-layer script; TLC trace validation against MonStoreEmit")
+    if not replay:
+        # store layer: the same forgeries as log entries on real stores - what the MessageStore emits and lists
+        # (MonStoreEmit.tla).  Runs right before the evidence is written.
+        finish = ctx.finish
+
+        def finish_with_store_layer(**kw):
+            ctx.finish = finish
+            import storeemit
+            storeemit.run_c01_part(ctx)
+            kw["technique"] = kw.get("technique", "") + "; store layer: forged entries appended to real orbit-db logs, emissions and listings of the real MessageStore judged by MonStoreEmit"
+            return finish(**kw)
+        ctx.finish = finish_with_store_layer
     return envelope.run(ctx, replay)
